@@ -234,6 +234,42 @@ def run(chk):
                 chk.sample(dict(abstract=spec[7][0], placement=spec[7][1]))
     chk.part('hosts', hosts=nhosts, within_or_on_a_slice=nontriv)
     chk.add_cases(nhosts, nontrivial=nontriv, traces=nhosts)
+    # ---- the catalogue is a function of the parameters of THIS call: a parameter dict reused for a second call with changed values
+    #      (optional keys left to their defaults) gives what a fresh dict with the same values gives, and is not modified
+    try:
+        import copy
+        rng2 = np.random.default_rng(chk.seed + 3)
+        H2 = hc.make_halos(rng2, 400)
+        P2 = hc.make_particles(rng2, H2, 3000)
+        opt = ('logM1_EE', 'alpha_EE', 'logM1_EL', 'alpha_EL', 'Acent', 'Asat', 'Bcent', 'Bsat', 'Ccent', 'Csat', 'ic')
+        nseq = 0
+        noted = False
+        for S2 in (['LRG', 'ELG'], ['ELG'], ['LRG', 'ELG', 'QSO']):
+            intent = {t: {k: v for k, v in hc.TRACERS[t].items() if k not in opt} for t in S2}
+            D = copy.deepcopy(intent)
+            for step, change in enumerate((None, dict(ELG=dict(logM1=0.4, alpha=-0.2)), dict(ELG=dict(logM_cut=0.3)), dict(LRG=dict(logM1=-0.3)) if 'LRG' in S2 else dict(ELG=dict(kappa=0.5)))):
+                if change:
+                    for t, ch in change.items():
+                        for k, dv in ch.items():
+                            intent[t][k] += dv
+                            D[t][k] += dv
+                want_d = copy.deepcopy(intent)
+                o1 = hc.run_hod(H2, P2, D, Nthread=3, rsd=True)
+                o2 = hc.run_hod(H2, P2, copy.deepcopy(intent), Nthread=3, rsd=True)
+                nseq += 1
+                if D != want_d and not noted:
+                    changed = {t: {k: D[t].get(k) for k in set(D[t]) ^ set(want_d[t]) | {k for k in want_d[t] if D[t].get(k) != want_d[t][k]}} for t in S2 if D[t] != want_d[t]}
+                    chk.note(f'C09: the caller\'s parameter dict is modified by gen_gal_cat ({changed}); judged by its effect on the next call')
+                    noted = True
+                for t in S2:
+                    same = o1[t]['Ncent'] == o2[t]['Ncent'] and all(np.array_equal(np.asarray(o1[t][k]), np.asarray(o2[t][k])) for k in ('x', 'y', 'z', 'vx', 'vy', 'vz', 'mass', 'id'))
+                    if not same:
+                        chk.violation(f'second-call-differs-{t}', f'tracers={S2} call {step + 1} on a reused parameter dict (changes so far applied in place): the {t} catalogue ({len(o1[t]["x"])} galaxies) differs from '
+                                      f'the one a fresh dict with the same values gives ({len(o2[t]["x"])} galaxies) — the occupation widths are not those of this call\'s parameters', dict(S=S2, tracer=t))
+        chk.part('reused_parameter_dict', calls=2 * nseq)
+        chk.add_cases(2 * nseq, traces=2 * nseq)
+    except Exception as e:  # noqa
+        chk.violation(f'reused-dict-raises-{type(e).__name__}', f'reused parameter dict sequence: {type(e).__name__}: {e}', {})
     # ---- extended coverage (beyond C09): satellites on an NFW profile — spec/NfwSats.tla
     try:
         import nfwsats
